@@ -109,8 +109,8 @@ CLAIMED['C11'] = dict(
     text='Kernel-checked: ascii_resync / binary_resync (WHATEVER the receiver holds after any noise, one whole valid frame leaves its buffer '
          'empty: invariant "buffer ends with the end delimiter" preserved by every drop of the receive loop), later_frames_delivered + '
          'ascii_never_deaf (every valid frame after that is delivered, backlog zero), rtu_step_kinds, rtu_server_decides (server-side length '
-         'oracle <= 268 bytes: a decision is taken by then, backlog bounded), rtu_flush_resync; rtu_client_counterexample (known finding: '
-         'client-side oracle unbounded).  RTU resynchronisation is stated up to the protocol-inherent false-frame case, which the harness '
+         'oracle <= 268 bytes: a decision is taken by then), rtu_server_backlog_bounded (run level, EVERY input and chunking: after each call fewer than 268 bytes stay buffered unless a decoder exception escaped), rtu_server_resync + rtu_server_never_deaf (a waiting receiver that sees 268 bytes of ANY traffic flushes and is aligned, every valid frame after that is delivered in any chunking; hypothesis NoFalseFrame: the window at the head of the noise never passes the CRC along the reads, decidable, non-vacuity example), rtu_flush_resync; rtu_client_counterexample (known finding: '
+         'client-side oracle unbounded), rtu_flush_discards_read_counterexample (known finding: the flush takes the rest of the read with it).  Garbage includes heads announcing frames at/beyond the maximum size.  RTU resynchronisation is stated up to the protocol-inherent false-frame case, which the harness '
          'counts and excludes.',
     design='6/C11', technique='Lean 4 invariant proof over the receive loop + differential correspondence on garbage/valid histories',
     note='RTU has no delimiter: alignment after noise is recovered at the first failed CRC; a CRC-valid window that starts inside the noise '
@@ -122,7 +122,7 @@ CLAIMED['C16'] = dict(
          'over the history through one invariant): fires_at_most_once, fires_with_matching_tid (TCP), fifo_order + fifo_reply_oldest '
          '(serial), delivered_reply_is_the_arrived_one, unsolicited_dropped / duplicate_dropped / reply_keeps_others, '
          'lost_fails_all_pending (re-entrant requests issued inside connectionLost included), after_loss_every_execute_fails + '
-         'after_loss_history, after_close_every_execute_fails + lost_after_close_fails_all_pending + close_then_lost (a local close() anywhere in the history), no_exception, C16_fifo (whole property, serial variant), C16_dict_partial / distinct_ids_partial / '
+         'connection_private / connection_is_single_history / chunks_are_replies / chunking_independent + chunking_same_as_whole (ANY division of a stream of valid reply frames into reads gives exactly the state and events of the replies arriving whole; via C06, possible since dataReceived passes unit=0) / split_reply_delivered / unit_from_chunk_counterexample (mutant Guess.*: the fixed finding async-unit-from-chunk) / generated_data_received_unit / multi_connection_lifts (several protocol objects in one process, replies arriving in chunks through the framer models: an operation on one connection changes nothing of another, so every history theorem holds per connection), shared_buffer_counterexample (mutant with one framer for all objects), generated_per_instance_state (regenerated from the source each run), after_loss_history, after_close_every_execute_fails + lost_after_close_fails_all_pending + close_then_lost (a local close() anywhere in the history), no_exception, C16_fifo (whole property, serial variant), C16_dict_partial / distinct_ids_partial / '
          'no_deferred_lost_partial (TCP variant while no outstanding request sees 65536 further executes) and '
          'distinct_ids_counterexample / C16_dict_counterexample (the full statement is false at the 16-bit wrap: known finding '
          'tid-wrap-overwrite). The model is compared event by event with the real ModbusClientProtocol / ModbusSerClientProtocol / '
@@ -177,7 +177,9 @@ CLAIMED['C09'] = dict(
          'silent_cases (broadcast / ignored missing unit: nothing is sent), frames_le_answered + no_spontaneous_output (at most one frame '
          'per answered delivery, none without a delivery), frames_carry_request_ids (every frame written is the framing of a response '
          'with the request unit and transaction id), over every event list by induction. Request histories with random ids, pipelined, '
-         'are sent to all seven real front-ends each run; what they write is compared with the model and parsed with a client receiver.',
+         'of every request class (data access, diagnostics, file records, device identification, broken layouts), split across reads and with idle '
+         'timeouts of the threaded handler in between, are sent to all seven real front-ends each run (the sync handlers run their handle() loop '
+         'once per connection in a thread, as socketserver does); what they write is compared with the model and parsed with a client receiver.',
     design='6/C09', technique='Lean 4 proof over the server front-end model (induction over deliveries) + differential correspondence',
     note=SERVER_NOTE + 'Which frames are delivered is settled for the framers by C06/C07.')
 CLAIMED['C10'] = dict(
@@ -185,13 +187,14 @@ CLAIMED['C10'] = dict(
          'no answer or gateway exception), addressed_unit_executed, broadcast_once (applied exactly once to every hosted unit), '
          'broadcast_no_response, broadcast_unit_accepted, other_requests_leave_tables, unit0_ordinary_without_broadcast, single_mode_any_unit. All seven real front-ends '
          'are run each run on hosted sets incl. 0/255 with per-unit dumps after every request; final tables are checked against the '
-         'per-unit projection of the history executed by the register-file spec.',
+         'per-unit projection of the history executed by the register-file spec. Histories include units removed from the context at run time '
+         '(del context[u]); the model carries the unit list a handler read before its blocking read (Conn.snap), as the sync TCP and asyncio handlers do.',
     design='6/C10', technique='Lean 4 proof over the server front-end model (unit routing) + differential correspondence + projection oracle',
     note=SERVER_NOTE)
 CLAIMED['C12'] = dict(
     text='Kernel-checked: no_exception_escapes / serve_no_exception (connStep never reports an escaped exception, for every byte string, '
          'connection state and front-end), store_unchanged_without_delivery, rejected_request_changes_nothing, stopped_connection_inert, '
-         'offending_data_closes_or_resets. Hostile histories (random bytes, well-framed ADUs around truncated / over-long / inconsistent / '
+         'offending_data_closes_or_resets, fresh_connection_probe (a connection opened after any history is served normally). Hostile histories (random bytes, well-framed ADUs around truncated / over-long / inconsistent / '
          'empty PDUs, length fields 0/1/65535, bit flips, mixed with valid writes) are sent to all seven real front-ends each run with an idle '
          'second connection and a fresh third one probed afterwards.',
     design='6/C12', technique='Lean 4 proof over the server front-end model (totality, store frame rule) + differential correspondence on hostile input',
@@ -200,8 +203,9 @@ CLAIMED['C17'] = dict(
     text='Kernel-checked: same_kind_agree (+ _history, _schedule: front-ends of the same kind — e.g. sync TCP and asyncio TCP — are equal as '
          'functions of the byte stream: every byte string, every request class, every interleaving of several connections), and across '
          'kinds (the Twisted protocols alone count sent messages and honour listen-only mode) the simulation all_frontends_agree / '
-         'stream_frontends_agree(_history): for data-access and identification requests every pair of front-ends writes byte-identical '
-         'responses and leaves the same datastore, the worlds differing at most in the counters; framing_independent_of_store, '
+         'stream_frontends_agree_history: for data-access and identification requests every pair of front-ends writes byte-identical '
+         'responses and leaves the same datastore, the worlds differing at most in the counters and the connections (CSim) at most in when they '
+         'read the unit list; same_kind_agree needs front-ends that read the unit list at the same point; framing_independent_of_store, '
          'mode_invariant. Each run gives the same datastore and request bytes to every real front-end and compares them with each other '
          'byte for byte, and interleaves 1..3 connections against the serial run of the frames in completion order.',
     design='6/C17', technique='Lean 4 proof of front-end equivalence (equality within a kind, simulation across kinds) + cross-implementation differential run',
@@ -212,22 +216,25 @@ CLAIMED['C15'] = dict(
          'operation: client-lock acquire, connect check, connect open, manager-lock acquire, tid++, connect, flush of the input, each '
          'of the two writes of a frame, every poll, each recv, process, both releases), a client that is connected OR NOT when the '
          'threads start, ANY fate of the connection attempts (the k-th create_connection accepted or refused) and ANY set of LOST '
-         'replies (the peer stays silent for a request: short read, connection closed, re-opened by the next call), with the lock '
+         'replies (the peer stays silent for a request: short read, connection closed, re-opened by the next call); requests may be '
+         'BROADCASTS (written under both locks, nothing read, no unit answers, result = the marker); with the lock '
          'discipline a parameter of the model. Under the shipped discipline (client lock around connect + transaction, manager lock '
          'nested): C15_full = Serialised (mutual_exclusion; frames_contiguous; caller_gets_its_due: every caller gets the reply built '
          'for its own request - its transaction id, unit and data - or, only when its own reply was lost, its own error object, or, '
-         'only when a connection attempt was refused, the connection exception; never a foreign reply) and NeverStuck (no_deadlock; '
+         'only when a connection attempt was refused, the connection exception, or, for a broadcast, the broadcast marker; never a '
+         'foreign reply; a broadcast frame never lands between another caller\'s send and the end of its receive) and NeverStuck (no_deadlock; '
          'fair_schedule_finishes: k rounds each giving every thread a turn, k >= total operations, end with every thread finished and '
-         'every request answered); own_reply, error_only_if_own_reply_lost, finished_all_served, results_in_request_order, '
+         'every request answered); own_reply, broadcaster_gets_marker, error_only_if_own_reply_lost, finished_all_served, results_in_request_order, '
          'finished_all_answered, socket_replaced_only_when_idle (a socket is installed only while no transaction is in flight), '
          'socket_is_newest_connection, every_move_is_progress, reentrant_acquire_never_blocks; by induction over the schedule with the '
          'invariant "holder of the client lock = the only thread inside execute and the newest connection is exactly where its '
          'transaction left it". generated_lock_scope: the source, read by ast on every run, has that discipline at both lock sites. '
-         'Named mutants without the property: lockOnlyWhenCold_counterexample / _not_serialised (client lock only when no socket is '
+         'Named mutants without the property: broadcastOutside_counterexample / _not_serialised (a broadcast written after the client '
+         'lock is given back: seeded C15-04), lockOnlyWhenCold_counterexample / _not_serialised (client lock only when no socket is '
          'seen: after a lost reply the reconnect inside _transact races with the locked connect; seeded C15-03), '
          'lock_leak_counterexample / leakOnFail_deadlocks (seeded C15-02), connect_race_counterexample / connectOutside_not_serialised '
          '(code before the repair of connect-outside-lock), none / perKey / perKey_foreign_reply / sendOnly counterexamples. Real '
-         'threads on the real ModbusTcpClient (in-memory socket/select/time, scripted connection refusals and lost replies, both locks '
+         'threads on the real ModbusTcpClient (in-memory socket/select/time, scripted connection refusals, lost replies and broadcasts, both locks '
          'instrumented from outside) run under a deterministic cooperative scheduler for all schedules of 2..4 threads x 1..3 '
          'transactions (DFS, capped) plus random schedules, each run checked against the property directly and against the model.',
     design='6/C15', technique='Lean 4 invariant proof over schedules of a lock-parametric thread model + systematic schedule enumeration of the real code',
